@@ -726,7 +726,8 @@ fn sweep_one(w: &mut Worker, sit: &Situation, attacker: &Peer, tier: Tier, pairs
                     out.c01.push(Violation { signature: format!("C01/panic/{}", panic_site(p)), description: format!("{what}: {}", p.chars().take(300).collect::<String>()), replay: replay_value(sit, mu, resign, firstop.as_ref()) });
                 }
                 Answer::Died(st) => {
-                    out.c01.push(Violation { signature: format!("C01/process-died/{}", mu.op), description: format!("{what}: worker {st}"), replay: replay_value(sit, mu, resign, firstop.as_ref()) });
+                    let sig = if st.contains(crate::worker::WALL_BACKSTOP) { "MACHINERY/worker-wall-clock-backstop".to_string() } else { format!("C01/process-died/{}", mu.op) };
+                    out.c01.push(Violation { signature: sig, description: format!("{what}: worker {st}"), replay: replay_value(sit, mu, resign, firstop.as_ref()) });
                     out.worker_restarts += 1;
                 }
                 Answer::Ok(o) => {
